@@ -203,6 +203,12 @@ func (fs FileServer) serveFile(w http.ResponseWriter, r *http.Request) (int, err
 			continue
 		}
 
+		// a compressed version that is supposed to be hidden is not served either
+		if fs.IsHidden(encodedFileInfo) {
+			encodedFile.Close()
+			continue
+		}
+
 		// close the encoded file when we're done, and close the
 		// previously-opened file immediately to release the fd
 		defer encodedFile.Close()
